@@ -78,7 +78,7 @@ pub proof fn lemma_only_from(b: Seq<Stmt>, k: int, content: Seq<char>, tl: usize
 /// a cursor line outside every test / fixture function gets NO function context:
 ///   - module level: a file whose top-level statements are neither `def` nor `class` (imports, assignments, `if`
 ///     blocks ... -- functions nested in those are not looked at either)
-///   - a plain helper function (not `test_*`, no fixture decorator), wherever the cursor is in it
+///   - a plain helper function (not `test*`, no fixture decorator), wherever the cursor is in it
 ///   - any function none of whose lines is the cursor line
 ///   - a class-body line outside its methods: every statement of the class body is one of the above
 //@tags C18
